@@ -74,6 +74,39 @@ def ladder_histories():
     return out
 
 
+TWO_MENU = [("add_char", 252), ("add_char", 253), ("add_three", P4), ("add_string", "ÿ"), ("add_string", "a"), ("add_encoded_string", "ÿ"),
+            ("add_fixed_string", "ÿ", 2, 1), ("add_fixed_string", "ab", 1, 0), ("add_fixed_encoded_string", "a", 1, 0), ("mode", 1), ("mode", 0),
+            ("add_bytes", b"\x00\xff")]
+
+
+def two_writer_history(hist):
+    """hist: [(writer index, op)...] on two writers alive at the same time; each must behave as if alone."""
+    prod = WriterProduct()
+    sts = [prod.fresh(), prod.fresh()]
+    for i, (w, op) in enumerate(hist):
+        what = prod.apply(sts[int(w)], tuple(op))
+        if what:
+            return f"two writers, step {i} on writer {w}: {what}"
+        other = prod.observe(sts[1 - int(w)])
+        if other:
+            return f"two writers, step {i} on writer {w} disturbed the OTHER writer: {other}"
+    return None
+
+
+def _two_shard(firsts):
+    loader.install_shims()
+    atoms = [(w, op) for w in (0, 1) for op in TWO_MENU]
+    count, bad = 0, []
+    for first in firsts:
+        for rest in itertools.product(atoms, repeat=2):
+            hist = [first] + list(rest)
+            count += 1
+            what = two_writer_history(hist)
+            if what and len(bad) < 3:
+                bad.append((hist, what))
+    return count, bad
+
+
 def call(w, op):
     name = op[0]
     if name in NUM_METHODS:
@@ -201,6 +234,10 @@ def run(tier, seed):
     pre = [(("mode", 1), ("mode", 0)), (("mode", 0), ("mode", 1)), (("mode", 1), ("add_string", "ÿ")), (("add_fixed_string", "ÿ", 2, 1), ("mode", 1))]
     jobs += [([p], "full", 3) for p in pre]
     res = par.pmap(_run_histories, jobs)
+    atoms = [(w, op) for w in (0, 1) for op in TWO_MENU]
+    res_two = par.pmap(_two_shard, par.chunks(atoms, W))
+    two_n = sum(r[0] for r in res_two)
+    two_bad = [b for r in res_two for b in r[1]]
     lad_bad, lad_n = [], 0
     prod = WriterProduct()
     for h in ladder_histories():
@@ -220,7 +257,11 @@ def run(tier, seed):
             violations.append({"key": key, "what": f"history {h}: {what}", "case": case, "alt_cases": alts})
     for h, what in lad_bad:
         violations.append({"key": f"writer-long:{h[-1][0]}:{what.split(':')[1][:40] if ':' in what else what[:40]}", "what": f"history {[(o[0],) + tuple(len(x) if isinstance(x, str) else x for x in o[1:]) for o in h]} (string lengths shown): {what}", "case": {"history": h}})
+    for h, what in two_bad:
+        violations.append({"key": "two-writers:" + what.split(": ", 1)[1][:50], "what": f"history {h}: {what}", "case": {"two": [[w, list(op)] for w, op in h]}})
+    hist += two_n
     coverage = {
+        "two_writer_histories": two_n,
         "long_string_histories": lad_n,
         "states": states,
         "transitions": trans,
@@ -234,7 +275,7 @@ def run(tier, seed):
         "exhaustive": True,
         "rule": "every history of depth_full over the full menu (5 numeric methods x 21 boundary values incl. every type's limit, "
         "12 strings x all string methods x lengths 0..4 x padded, raw bytes, mode toggles), every history of depth_reduced "
-        "over the reduced menu, and the full menu after 4 two-step prefixes; plus a length ladder (strings of 8..300 characters with a y-diaeresis at start/middle/end through every string method, both modes, exact/padded/wrong widths); after every step the real writer's "
+        "over the reduced menu, and the full menu after 4 two-step prefixes; plus every history of 3 steps over a 12-op menu on TWO writers alive at the same time (each step also re-observes the other writer); plus a length ladder (strings of 8..300 characters with a y-diaeresis at start/middle/end through every string method, both modes, exact/padded/wrong widths); after every step the real writer's "
         "(len, bytes, mode) and accept/ValueError outcome are compared with M4; states = distinct final (buffer, mode) pairs",
         "samples": [{"history": [list(map(_j, o)) for o in h]} for h in ([("mode", 1), ("add_fixed_string", "aÿ", 3, 1)], [("add_three", P4), ("add_char", 252)])],
     }
@@ -251,6 +292,8 @@ def _j(x):
 
 def replay(case):
     loader.install_shims()
+    if case.get("two"):
+        return two_writer_history([(int(w), _fix(op)) for w, op in case["two"]])
     hist = [tuple(o) for o in case["history"]]
     if case.get("job"):
         # context-dependent violation: re-run the whole shard enumeration it was found in (fresh process)
